@@ -19,6 +19,14 @@ CLAIMED = {
     text="TLC enumerates specs/Iterators.tla: for every root (D<=3, extents 0..3) and every view one operation away, all iterator programs over two registers (begin/end/++/--/post-inc/dec/+=/-=/+/-/assign/copy) within the bounds, for begin()/end() iterators and for elements() iterators; each program is replayed on the real library and position (it-begin, end-it), differences, all six comparisons, dereferenced cells, it[n] for every in-range n, copies and const iterators must equal what the position semantics of the specification prescribes.",
     note="bounded: ranges of <= 6 positions, offsets in {-2..2}, programs of <= 2 operations after merging by position pair (edge coverage) plus all unmerged programs of length <= 2 on 2-D roots; cursors are covered as an access path of C01.",
     ref="DESIGN.md section 5 C02"),
+ "C04": dict(
+    text="TLC enumerates specs/ArrayOps.tla: histories over a pool of array variables of every constructor form, copy/move construction and assignment, assignment from views through one- and two-operation layout wrappers, from another element type, from nested initializer lists, swap, decay/unary plus, element writes and destruction; the specification prescribes the value (extents, index bases, elements) of every array after every history; each history is replayed on real multi::array objects (int and std::string elements) and values, storage disjointness and storage transfer on move must agree.",
+    note="bounded: 2 array variables (3 in thorough), D 1..3 (4 in thorough), extents 0..2/3, histories of <= 3 operations; D=0 arrays are not covered; unspecified values of new trivial elements are not compared.",
+    ref="DESIGN.md section 5 C04"),
+ "C06": dict(
+    text="Same specification restricted to the C06 operation set: TLC enumerates every (old extents, new extents) pair within the bounds for reextent with and without a fill value, reshape to every extents of equal element count, clear, assignment from {}, assign(first,last) and initializer-list assignment, interleaved with copies and writes; the prescribed values (common part kept, fill or value-initialised elsewhere) are compared with real arrays over int, std::string and a trivially-copyable-but-not-trivially-default-constructible struct allocated from pattern-filled memory; reextent to the same extents must keep the storage.",
+    note="bounded: D 1..4, extents 0..3 (D<=2), 0..2 (D=3), 0..1 (D=4) in the quick tier; array::assign(extensions, value) does not compile at the pinned commit and is not exercised.",
+    ref="DESIGN.md section 5 C06"),
 }
 
 props = [json.loads(l) for l in open(os.path.join(V, "properties.jsonl"))]
